@@ -40,8 +40,12 @@ int main(int argc, char** argv)
     bool seq = argc > 2 && !strcmp(argv[2], "seq");
     int ncases = seq ? (E.thorough ? 600 : 150) : (E.thorough ? 150 : 40);
     const char* KN[] = { "jacobi", "sor", "ssor" };
-    for (int it = 0; it < ncases; it++)
+    // after the regular cases (their numbers stay): matrices the caller has sorted (sorted = true, diagonal not first), the
+    // state a matrix is in after finalize() / sort()
+    int nextra = ncases / 3;
+    for (int it0 = 0; it0 < ncases + nextra; it0++)
     {
+        bool presort = it0 >= ncases; int it = presort ? (it0 - ncases) * 3 : it0;
         int cap = 1 + std::min(14, it / 4);
         bool exact_start = g.coin(1, 4);          // start at the exact solution: the sweep must not move it
         int sweeps = g.range(1, 3); double omega = gen_omega(g);
@@ -50,7 +54,8 @@ int main(int argc, char** argv)
             vh::Trip t = gen_sys(g, n, exact_start);
             for (int kind = 0; kind < 3; kind++) {
                 CSRMatrix* A = vh::make_csr(t);
-                if (kind > 0 || g.coin()) { A->sort(); A->move_diag(); }      // canonical layout (jacobi also runs on the raw layout)
+                if (presort) { (void)g.coin(); A->sort(); if (kind > 0) A->move_diag(); }
+                else if (kind > 0 || g.coin()) { A->sort(); A->move_diag(); }      // canonical layout (jacobi also runs on the raw layout)
                 Vector x(n), b(n), tmp(n);
                 std::vector<double> x0(n), b0(n);
                 for (int i = 0; i < n; i++) x0[i] = exact_start ? g.range(-4, 4) : (g.unit() - 0.5) * 8;
@@ -79,7 +84,7 @@ int main(int argc, char** argv)
             if (exact_start) { for (int i = 0; i < n; i++) b0[i] = 0; for (size_t k = 0; k < t.r.size(); k++) b0[t.r[k]] += t.v[k] * x0[t.c[k]]; }
             else for (int i = 0; i < n; i++) b0[i] = (g.unit() - 0.5) * 8;
             for (int kind = 0; kind < 3; kind++) for (int tap = 0; tap <= (np > 1 ? 1 : 0); tap++) {
-                ParCOOMatrix* Ac = vh::assemble_coo(t, L, rank); ParCSRMatrix* A = Ac->to_ParCSR();
+                ParCOOMatrix* Ac = vh::assemble_coo(t, L, rank); ParCSRMatrix* A = Ac->to_ParCSR(); if (presort) { A->on_proc->sort(); A->off_proc->sort(); }
                 int fr = A->partition->first_local_row, lr = A->local_num_rows;
                 ParVector x(n, lr), b(n, lr), tmp(n, lr);
                 vh::fill_vec(x, x0, fr); vh::fill_vec(b, b0, fr);
